@@ -36,7 +36,7 @@ def overlay_ops(P):
         fields = {f["name"]: f["t"] for f in adt["variants"][0]["fields"]}
         if any(t.startswith("std::vec::Vec<") and "OperationTrait" in t for t in fields.values()):
             gtd = P.impl_method(i, "get_tile_data")
-            if gtd and ir.contains(gtd["body"], lambda y: (y.get("q") or "").endswith("compression::recompress")):
+            if gtd and ir.contains(ir.inline_helpers(P, gtd, ir.same_impl_helper(gtd))["body"], lambda y: (y.get("q") or "").endswith("compression::recompress")):
                 out.append(i)
     return out
 
@@ -49,6 +49,9 @@ def rules(ck, P):
     adt = impl["self_adt"]
     gtd = P.impl_method(impl, "get_tile_data")
     gts = P.impl_method(impl, "get_tile_stream")
+    # private helpers of the operation are inlined: a re-encoding moved into `fn to_output(&self, ..)` is still seen
+    gtd = ir.inline_helpers(P, gtd, ir.same_impl_helper(gtd)) if gtd else gtd
+    gts = ir.inline_helpers(P, gts, ir.same_impl_helper(gts)) if gts else gts
     builds = [b for b in P.bodies if b.get("self_adt") == adt and b["q"].endswith("::build")]
     if not ck.anchor("R-FIRST", "methods", [x for x in (gtd, gts) if x] + builds, 3):
         return
@@ -264,6 +267,13 @@ def _recompress_ok(ck, fn, rc, src_hid, path):
             root = ir.strip(root["e"] if root.get("k") == "field" else root["recv"])
         lets = comp.lets_of(fn)
         p2d = comp.deep_place(a2, lets)
+        # follow parameter bindings of inlined helpers back to the loop's source binding
+        seen_ = 0
+        while root is not None and ir.local_hid(root) != src_hid and ir.local_hid(root) in lets and seen_ < 6:
+            root = ir.strip(lets[ir.local_hid(root)])
+            while root is not None and root.get("k") in ("field", "mcall", "ref", "un"):
+                root = ir.strip(root["e"] if root.get("k") in ("field", "ref", "un") else root["recv"])
+            seen_ += 1
         ok = p1.endswith("get_parameters().tile_compression") and ir.local_hid(root) == src_hid and p2d.endswith("self.parameters.tile_compression")
     ck.check(ok, "E-COMP", fn["q"] + "|" + path, "%s: blob is re-encoded from the producing source's declared compression to the overlay's (%s)" % (path, desc),
              "%s: recompress arguments are %s — not (this source's compression -> overlay's compression)" % (path, desc), ir.loc(fn))
